@@ -26,8 +26,12 @@ type solverRes struct {
 var cacheDir = "/verif/.cache"
 
 func runSolver(name, query string, timeout time.Duration) solverRes {
+	return runSolverCtx(context.Background(), name, query, timeout)
+}
+
+func runSolverCtx(parent context.Context, name, query string, timeout time.Duration) solverRes {
 	var cmd *exec.Cmd
-	ctx, cancel := context.WithTimeout(context.Background(), timeout+2*time.Second)
+	ctx, cancel := context.WithTimeout(parent, timeout+2*time.Second)
 	defer cancel()
 	secs := int(timeout.Seconds())
 	if secs < 1 {
@@ -122,20 +126,33 @@ func discharge(vc *VC, o *Obligation, opts solveOpts) {
 		}
 		wg.Wait()
 	} else {
-		r := runSolver("z3-new", q, opts.timeout)
+		// phase 1: z3-new with a short budget decides the bulk; phase 2: all three raced, first verdict wins
+		first := 2 * time.Second
+		if opts.timeout < first {
+			first = opts.timeout
+		}
+		var r solverRes
+		if strings.Contains(o.Goal, "fp.") {
+			r = solverRes{verdict: "skipped", solver: "z3-new"} // z3 5.x is slow on FP goals under quantifiers: race at once
+		} else {
+			r = runSolver("z3-new", q, first)
+		}
 		results = append(results, r)
 		if r.verdict != "unsat" && r.verdict != "sat" {
-			ch := make(chan solverRes, 2)
-			for _, s := range []string{"z3", "cvc5"} {
-				go func(s string) { ch <- runSolver(s, q, opts.timeout) }(s)
+			ctx, cancel := context.WithCancel(context.Background())
+			ch := make(chan solverRes, 3)
+			names := []string{"z3", "cvc5", "z3-new"}
+			for _, s := range names {
+				go func(s string) { ch <- runSolverCtx(ctx, s, q, opts.timeout) }(s)
 			}
-			for i := 0; i < 2; i++ {
+			for i := 0; i < len(names); i++ {
 				rr := <-ch
 				results = append(results, rr)
-				if rr.verdict == "unsat" {
+				if rr.verdict == "unsat" || rr.verdict == "sat" {
 					break
 				}
 			}
+			cancel()
 		}
 	}
 	var unsat, sat *solverRes
